@@ -131,7 +131,12 @@ func (g *c07Gen) pattern() jast.Node {
 
 func (g *c07Gen) update() jast.Node {
 	r := g.r
-	switch r.Intn(11) {
+	switch r.Intn(12) {
+	case 11:
+		// the object itself, handed back by a library function in one of its own
+		// array types (the whole-array argument of $map)
+		g.tags["update:self-through-library-array"] = true
+		return obj("self", call("map", &jast.Var{Name: ""}, lam([]string{"v", "i", "a"}, v("a"))), "n", &jast.Num{V: 1})
 	case 10:
 		// several members that are (or hold) the object itself: each must be a
 		// copy of the object as it was before the update, whatever the order
@@ -199,7 +204,9 @@ func (g *c07Gen) transformProgram() jast.Node {
 		g.tags["subject:constructed-with-null-and-function"] = true
 		constructed = true
 		subject = obj("k", &jast.Str{V: "x"}, "v", &jast.Num{V: 2}, "n", &jast.Null{}, "g", &jast.Lambda{Params: []string{"x"}, Body: &jast.Bin{Op: "*", L: &jast.Var{Name: "x"}, R: &jast.Num{V: 3}}},
-			"b", obj("n", &jast.Null{}, "k", &jast.Str{V: "y"}))
+			"b", obj("n", &jast.Null{}, "k", &jast.Str{V: "y"}),
+			// arrays as the library hands them out ([]string, Go integers)
+			"sp", call("split", &jast.Str{V: "p,q"}, &jast.Str{V: ","}), "cnt", call("count", lit(A{1.0, 2.0})))
 	case 0:
 		subject = &jast.Var{Name: ""}
 	case 1:
